@@ -65,6 +65,12 @@ func runRounds(args []string) (map[string]any, error) {
 		tid++
 		exec.RunRounds(w, in, st, tid, exec.GenRounds(r, true))
 	}
+	// large-scope rounds (change sets of several hundred nodes): 1 per 300 random histories, at least 2
+	nbulk := 2 + *c.n/300
+	for i := 0; i < nbulk; i++ {
+		tid++
+		exec.RunRounds(w, in, st, tid, exec.GenRoundsBulk(r))
+	}
 	for i := 0; i < *nblock; i++ {
 		tid++
 		exec.RunRounds(w, in, st, tid, exec.GenRounds(r, false))
@@ -72,7 +78,7 @@ func runRounds(args []string) (map[string]any, error) {
 	if err := w.Close(); err != nil {
 		return nil, err
 	}
-	return map[string]any{"traces": st.Traces, "events": st.Events, "tlc_histories": nTLC, "go_histories": *c.n + *nblock,
+	return map[string]any{"traces": st.Traces, "events": st.Events, "tlc_histories": nTLC, "go_histories": *c.n + *nblock, "bulk_histories": nbulk,
 		"saves": st.Saves, "crashes": st.Crashes, "prunes": st.Prunes, "merges": st.Merges, "rejected_merges": st.Rejected,
 		"reopens": st.Reopens, "panics": st.Panics, "distinct_signatures": len(st.Distinct), "distinct_nodes": in.Len(), "samples": w.Samples}, nil
 }
